@@ -76,7 +76,8 @@ cmd_table (int argc, char **argv)
 
 int
 cmd_grid (int argc, char **argv)
-{	(void) argc ; (void) argv ;
-	fprintf (stderr, "sfh grid: not built yet\n") ;
+{	if (argc >= 1 && !strcmp (argv [0], "c10"))
+		return grid_c10 (argc - 1, argv + 1) ;
+	fprintf (stderr, "sfh grid: unknown grid\n") ;
 	return 2 ;
 }
